@@ -131,6 +131,22 @@ def tlc(workdir, module, cfg_text, workers=None, timeout=1800, extra=(), files=(
     return r
 
 
+def apalache(workdir, module, args, timeout=900):
+    """Run apalache-mc check on spec/<module>.tla inside workdir; returns (ok, seconds, tail of the output)."""
+    shutil.copy(os.path.join(SPEC, module + ".tla"), workdir)
+    cmd = ["apalache-mc", "check", "--out-dir=" + os.path.join(workdir, "_apalache-out")] + list(args) + [module + ".tla"]
+    t = time.time()
+    try:
+        p = subprocess.run(cmd, cwd=workdir, capture_output=True, text=True, timeout=timeout,
+                           env=dict(os.environ, JVM_ARGS="-Xmx4g -Djava.io.tmpdir=" + workdir))
+    except subprocess.TimeoutExpired:
+        raise Inconclusive("Apalache timeout on %s after %ds" % (module, timeout))
+    out = p.stdout + p.stderr
+    ok = p.returncode == 0 and "The outcome is: NoError" in out
+    log("Apalache %s %s: ok=%s, %.1fs" % (module, " ".join(args), ok, time.time() - t))
+    return ok, time.time() - t, out[-1500:]
+
+
 def cfg_of(name, **subst):
     """Read spec/cfg/<name>.cfg and substitute @KEY@ markers."""
     s = open(os.path.join(SPEC, "cfg", name + ".cfg")).read()
